@@ -690,4 +690,237 @@ theorem writes_under_lock {cfg : Cfg} {s : State} (hr : Reach cfg s) (t : Tid) :
     · exact Or.inr ⟨p, hp⟩
   · exact Or.inr (Or.inr h4)
 
+/-! ## 7. liveness-flavoured facts: no trap, solo termination, retries need interference
+
+Still the same finite instance, all interleavings. None of this is a fairness result: the
+theorems say that a finishing continuation EXISTS from every reachable state, that a thread
+running undisturbed leaves its loops, and in which states a retry edge can be taken at all. -/
+
+/-- a claimed upper bound, for the state coded by the key at the same position of `keys cfg`, on
+    the number of steps needed to reach a state with both threads done (the same list serves both
+    values of `cfg.fix`). Printed by a backward breadth-first search; not trusted: `finChk`. -/
+def distTable : List Nat :=
+  [9, 10, 11, 12, 13, 14, 15, 8, 9, 10, 11, 12, 13, 14, 7, 8, 9, 10, 11, 12, 13, 6, 7, 8, 9, 10,
+   11, 12, 5, 6, 7, 8, 9, 10, 11, 0, 1, 2, 3, 4, 5, 6, 7, 8, 9, 10, 11, 12, 11, 10, 9, 8, 5, 6, 7,
+   0, 1, 2, 3, 4, 5, 6, 7, 8, 9, 10, 11, 12, 13, 14, 15, 16, 17, 18, 18, 19, 19, 17, 18, 18, 16,
+   17, 11, 10, 9, 8, 9, 10, 11, 12, 13, 14, 15, 16, 17, 15, 16, 5, 6, 7, 8, 9, 10, 11, 12, 13, 14,
+   15, 0, 1, 2, 3, 4, 5, 6, 7, 8, 9, 10, 11, 12, 11, 12, 13, 14, 11, 10, 11, 12, 13, 10, 9, 10, 11,
+   12, 9, 8, 9, 10, 11, 8, 7, 8, 9, 10, 5, 6, 7, 6, 7, 8, 9, 0, 1, 2, 3, 4, 5, 6, 7, 8, 9, 10, 11,
+   12, 13, 14, 15, 16, 17, 18, 19, 20]
+
+/-- `(key, claimed distance)` -/
+def ranked (cfg : Cfg) : List (Nat × Nat) := (keys cfg).zip distTable
+
+/-- every entry is either a both-done state or has a successor with a strictly smaller entry -/
+def finChk (cfg : Cfg) (tbl : List (Nat × Nat)) : Bool :=
+  tbl.all fun kr => decide (bothDone (decode kr.1)) ||
+    (succs cfg (decode kr.1)).any fun s' =>
+      tbl.any fun kr' => decide (kr'.1 = encode s') && decide (kr'.2 < kr.2)
+
+theorem fin_path {cfg : Cfg} {tbl : List (Nat × Nat)} (h : finChk cfg tbl = true) :
+    ∀ (n : Nat), ∀ kr ∈ tbl, kr.2 < n →
+      ∃ es s', exec cfg (decode kr.1) es = some s' ∧ bothDone s' ∧ es.length ≤ kr.2
+  | 0, _, _, hlt => absurd hlt (Nat.not_lt_zero _)
+  | n + 1, kr, hkr, hlt => by
+    have h0 := List.all_eq_true.mp h kr hkr
+    rcases Bool.or_eq_true_iff.mp h0 with hd | hs
+    · exact ⟨[], decode kr.1, rfl, of_decide_eq_true hd, Nat.zero_le _⟩
+    · obtain ⟨s1, hs1, h2⟩ := List.any_eq_true.mp hs
+      obtain ⟨kr', hkr', h3⟩ := List.any_eq_true.mp h2
+      have h4 := Bool.and_eq_true_iff.mp h3
+      have hk : kr'.1 = encode s1 := of_decide_eq_true h4.1
+      have hr : kr'.2 < kr.2 := of_decide_eq_true h4.2
+      obtain ⟨es, s', hex, hd, hlen⟩ := fin_path h n kr' hkr' (by omega)
+      rw [hk, decode_encode] at hex
+      obtain ⟨e, he⟩ := succs_step hs1
+      refine ⟨e :: es, s', ?_, hd, ?_⟩
+      · show (step? cfg (decode kr.1) e).bind (fun s' => exec cfg s' es) = some s'
+        rw [he]
+        exact hex
+      · simp only [List.length_cons]
+        omega
+
+theorem ranked_ok (cfg : Cfg) : finChk cfg (ranked cfg) = true ∧
+    (ranked cfg).map (·.1) = keys cfg ∧ ∀ kr ∈ ranked cfg, kr.2 ≤ 20 := by
+  cases cfg with
+  | mk f => cases f <;> decide +kernel
+
+/-- In this instance: from EVERY reachable state some continuation of at most 20 steps ends with
+    both removes done. No reachable state is a trap; in particular each of the retry loops (lines
+    3-5, 7-8, 7-8') can be left from every state in which a thread is inside it. This is an
+    existence statement (no scheduler assumption, no fairness claim). -/
+theorem can_finish_both {cfg : Cfg} {s : State} (hr : Reach cfg s) :
+    ∃ es s', exec cfg s es = some s' ∧ bothDone s' ∧ es.length ≤ 20 := by
+  obtain ⟨k, hk, rfl⟩ := List.mem_map.mp (reach_mem hr)
+  obtain ⟨hchk, hkeys, hbound⟩ := ranked_ok cfg
+  rw [← hkeys] at hk
+  obtain ⟨kr, hkr, rfl⟩ := List.mem_map.mp hk
+  have hb := hbound kr hkr
+  obtain ⟨es, s', hex, hd, hlen⟩ := fin_path hchk 21 kr hkr (by omega)
+  exact ⟨es, s', hex, hd, by omega⟩
+
+/-- The form asked for, a corollary of `can_finish_both` (both done is a quiescent state): from
+    every reachable state some continuation reaches a quiescent state. -/
+theorem can_always_finish {cfg : Cfg} {s : State} (hr : Reach cfg s) :
+    ∃ es s', exec cfg s es = some s' ∧ quiescent s' := by
+  obtain ⟨es, s', hex, hd, _⟩ := can_finish_both hr
+  refine ⟨es, s', hex, ?_, ?_⟩
+  · rw [hd.1]; rfl
+  · rw [hd.2]; rfl
+
+/-! ### a thread running alone -/
+
+def Tid.other : Tid → Tid
+  | .t0 => .t1
+  | .t1 => .t0
+
+/-- the lock a thread owning leaf `X` tries to take at program point `pc` (lines 1, 4, 7, 11') -/
+def PC.wants (X : Leaf) : PC → Option LockId
+  | .idle => some (.leaf X)
+  | .lockPrev p => some (.leaf p)
+  | .acqParent true => some .int
+  | .acqParent false => some .root
+  | .intRootLock => some .root
+  | _ => none
+
+/-- run only thread `t` until it has no enabled step; `none` = still enabled after `fuel + 1`
+    steps. Returns the number of steps taken and the state reached. -/
+def solo (cfg : Cfg) (t : Tid) : Nat → State → Option (Nat × State)
+  | 0, s =>
+    match step? cfg s (.step t) with
+    | none => some (0, s)
+    | some _ => none
+  | n + 1, s =>
+    match step? cfg s (.step t) with
+    | none => some (0, s)
+    | some s1 =>
+      match solo cfg t n s1 with
+      | some r => some (r.1 + 1, r.2)
+      | none => none
+
+theorem solo_spec (cfg : Cfg) (t : Tid) : ∀ (n : Nat) (s : State) (m : Nat) (s' : State),
+    solo cfg t n s = some (m, s') →
+    m ≤ n ∧ exec cfg s (List.replicate m (.step t)) = some s' ∧ step? cfg s' (.step t) = none
+  | 0, s, m, s', h => by
+    unfold solo at h
+    split at h
+    · next hn =>
+      simp only [Option.some.injEq, Prod.mk.injEq] at h
+      obtain ⟨rfl, rfl⟩ := h
+      exact ⟨Nat.le_refl _, rfl, hn⟩
+    · cases h
+  | n + 1, s, m, s', h => by
+    unfold solo at h
+    split at h
+    · next hn =>
+      simp only [Option.some.injEq, Prod.mk.injEq] at h
+      obtain ⟨rfl, rfl⟩ := h
+      exact ⟨Nat.zero_le _, rfl, hn⟩
+    · next s1 hs1 =>
+      split at h
+      · next r hr =>
+        simp only [Option.some.injEq, Prod.mk.injEq] at h
+        obtain ⟨rfl, rfl⟩ := h
+        obtain ⟨h1, h2, h3⟩ := solo_spec cfg t n s1 r.1 r.2 hr
+        refine ⟨Nat.succ_le_succ h1, ?_, h3⟩
+        show (step? cfg s (.step t)).bind (fun s' => exec cfg s' (List.replicate r.1 (.step t))) = _
+        rw [hs1]
+        exact h2
+      · cases h
+
+theorem solo_key (cfg : Cfg) : ∀ s ∈ litStates cfg, ∀ t ∈ tids, ∃ r ∈ (solo cfg t 12 s).toList,
+    (r.2.pc t = .done ∨
+      ∃ l ∈ lockIds, (r.2.pc t).wants t.own = some l ∧ r.2.lockOf l = some t.other) ∧
+    ((s.pc t.other).quiet = true → r.2.pc t = .done) := by
+  cases cfg with
+  | mk f => cases f <;> decide +kernel
+
+/-- In this instance: from every reachable state, for either thread `t`, running ONLY `t` stops
+    after at most 12 steps, and it stops either because `t` is done or because `t` waits for a lock
+    that the OTHER thread holds (never for a lock it holds itself). So no loop of the protocol
+    (3-5, 7-8, 7-8', 11'-12') can spin when the thread runs undisturbed. -/
+theorem solo_run_halts {cfg : Cfg} {s : State} (hr : Reach cfg s) (t : Tid) :
+    ∃ n s', n ≤ 12 ∧ exec cfg s (List.replicate n (.step t)) = some s' ∧
+      step? cfg s' (.step t) = none ∧
+      (s'.pc t = .done ∨
+        ∃ l, (s'.pc t).wants t.own = some l ∧ s'.lockOf l = some t.other) := by
+  obtain ⟨r, hmem, hA, _⟩ := solo_key cfg s (reach_mem hr) t (mem_tids t)
+  have hsolo : solo cfg t 12 s = some (r.1, r.2) := by simpa using hmem
+  obtain ⟨h1, h2, h3⟩ := solo_spec cfg t 12 s r.1 r.2 hsolo
+  refine ⟨r.1, r.2, h1, h2, h3, ?_⟩
+  rcases hA with hd | ⟨l, _, hl⟩
+  · exact Or.inl hd
+  · exact Or.inr ⟨l, hl⟩
+
+/-- In this instance: from every reachable state in which the other thread is not started or
+    done, running ONLY `t` brings `t` to `done` within 12 steps (this includes starting from
+    `idle`). This is the true form of "every thread can finish alone": when the other thread is
+    in the middle of its remove, `t` running alone may instead stop at a lock the other thread
+    holds (`solo_run_halts`). -/
+theorem every_thread_can_finish_alone {cfg : Cfg} {s : State} (hr : Reach cfg s) (t : Tid)
+    (hq : (s.pc t.other).quiet = true) :
+    ∃ n s', n ≤ 12 ∧ exec cfg s (List.replicate n (.step t)) = some s' ∧ s'.pc t = .done := by
+  obtain ⟨r, hmem, _, hB⟩ := solo_key cfg s (reach_mem hr) t (mem_tids t)
+  have hsolo : solo cfg t 12 s = some (r.1, r.2) := by simpa using hmem
+  obtain ⟨h1, h2, _⟩ := solo_spec cfg t 12 s r.1 r.2 hsolo
+  exact ⟨r.1, r.2, h1, h2, hB hq⟩
+
+/-! ### retry edges and a progress measure -/
+
+/-- the backward edges of the listing: 5 → 3 (`goto retry_prev_lock`), 8 → 7 and 8' → 7 (the
+    `continue` / loop of `lock_parent`), 12' → 11' (the same loop inside `lock_parent(I)`) -/
+def retryEdge : PC → PC → Bool
+  | .chkPrev _, .readPrev => true
+  | .chkParent _, .acqParent _ => true
+  | .promote, .intRootLock => true
+  | _, _ => false
+
+theorem retry_key (cfg : Cfg) : ∀ s ∈ litStates cfg, ∀ t ∈ tids,
+    ∀ s' ∈ (step? cfg s (.step t)).toList, retryEdge (s.pc t) (s'.pc t) = true →
+      s.pc t.other = .intDel ∨ s.pc t.other = .intRootLock ∨ s.pc t.other = .promote ∨
+      s.pc t.other = .done := by
+  cases cfg with
+  | mk f => cases f <;> decide +kernel
+
+/-- In this instance: a retry edge is taken only when the other thread has already executed line
+    9' (it is collapsing `I`, or has finished). -/
+theorem retry_only_after_leave {cfg : Cfg} {s s' : State} (hr : Reach cfg s) (t : Tid)
+    (h : step? cfg s (.step t) = some s') (he : retryEdge (s.pc t) (s'.pc t) = true) :
+    s.pc t.other = .intDel ∨ s.pc t.other = .intRootLock ∨ s.pc t.other = .promote ∨
+    s.pc t.other = .done :=
+  retry_key cfg s (reach_mem hr) t (mem_tids t) s' (by simp [h]) he
+
+/-- In this instance: a thread takes a retry edge only in a state where the other thread has
+    started; a thread running while the other one is idle never retries. -/
+theorem retry_needs_interference {cfg : Cfg} {s s' : State} (hr : Reach cfg s) (t : Tid)
+    (h : step? cfg s (.step t) = some s') (he : retryEdge (s.pc t) (s'.pc t) = true) :
+    s.pc t.other ≠ .idle := by
+  intro hi
+  rcases retry_only_after_leave hr t h he with h1 | h1 | h1 | h1 <;> rw [hi] at h1 <;> cases h1
+
+/-- position in the program text, counted from the end -/
+def pcRank : PC → Nat
+  | .idle => 15 | .markDel => 14 | .readPrev => 13 | .lockPrev _ => 12 | .chkPrev _ => 11
+  | .noPrev => 11 | .readParent => 10 | .acqParent true => 9 | .chkParent true => 8 | .leave => 7
+  | .acqParent false => 7 | .intDel => 6 | .chkParent false => 6 | .intRootLock => 5
+  | .stayRoot => 5 | .promote => 4 | .stayUnlock => 4 | .done => 0
+
+def rank (s : State) : Nat := pcRank s.t0 + pcRank s.t1
+
+/-- In this instance: every step from a reachable state either is a retry edge or strictly
+    decreases `rank` (which is at most 30). Hence an execution is infinite only if it takes retry
+    edges infinitely often, and by `retry_only_after_leave` those need the other thread to be past
+    line 9'. (This does not bound the number of retries; `can_finish_both` and `solo_run_halts` are
+    the statements about leaving the loops.) -/
+theorem progress_measure {cfg : Cfg} {s s' : State} (hr : Reach cfg s) (t : Tid)
+    (h : step? cfg s (.step t) = some s') :
+    retryEdge (s.pc t) (s'.pc t) = true ∨ rank s' < rank s := by
+  have key : ∀ cfg : Cfg, ∀ s ∈ litStates cfg, ∀ t ∈ tids,
+      ∀ s' ∈ (step? cfg s (.step t)).toList,
+        retryEdge (s.pc t) (s'.pc t) = true ∨ rank s' < rank s := by
+    intro cfg
+    cases cfg with
+    | mk f => cases f <;> decide +kernel
+  exact of_all (key cfg) hr t (mem_tids t) s' (by simp [h])
+
 end Yak.Proto.Collapse
